@@ -11,6 +11,9 @@ from vlib import core
 HEADER = ('From Coq Require Import ZArith NArith List Ascii String.\nFrom DV Require Import Base.Dec C07.Model.\n'
           'Import ListNotations.\nOpen Scope string_scope.\n')
 
+HEADER_RB = ('From Coq Require Import ZArith NArith List Ascii String.\nFrom DV Require Import Base.Dec C07.Model C07.Reader.\n'
+             'Import ListNotations.\nOpen Scope string_scope.\n')
+
 PLAIN = re.compile(r'-?[0-9]+(\.[0-9]+)?\Z')
 JSONNUM = re.compile(r'-?(0|[1-9][0-9]*)(\.[0-9]+)?([eE][+-]?[0-9]+)?\Z')
 
@@ -83,6 +86,89 @@ def law_failure(p, j, rb, d):
     return None
 
 
+def reread(sign, coef, exp):
+    """coq/C07/Reader.v `reread`: the datum that reading the printed text of (sign, coef, exp) gives (C07_read_back_datum)."""
+    if exp > 0:
+        if coef == 0:
+            return (sign, 0, 0)
+        k = max(0, len(str(coef)) + exp - 34)
+        return (sign, coef * 10 ** (exp - k), k)
+    return (sign, coef, exp)
+
+
+def datum(text):
+    """the exact (sign, coefficient, exponent) a scientific / plain numeral writes; None for Infinity / NaN"""
+    try:
+        t = Decimal(text).as_tuple()
+    except Exception:
+        return None
+    if not isinstance(t.exponent, int):
+        return None
+    return (bool(t.sign), int(''.join(map(str, t.digits))), t.exponent)
+
+
+def read_back_section(ctx, cases, printed, hist):
+    """from_str on the printed text: the datum decQuadFromString builds (its raw decQuadToString text) against reread (all grid
+    cases), against the Coq model read_back (texts of moderate length) and, for numerals that do need rounding, against from_plain."""
+    r = ctx.rng
+    # (a) every grid case: the datum read back is reread d
+    live = [(k, p) for k, p in zip(cases, printed) if p is not None]
+    got = ctx.run_impl('num', [{'op': 'sci', 'a': p} for _, p in live])
+    for (k, p), g in zip(live, got):
+        ctx.corr_checked += 1
+        case = {'operand': dec_text(*k), 'sign': k[0], 'coefficient': str(k[1]), 'exponent': k[2], 'printed': p[:80]}
+        if datum(g.get('r')) != reread(*k):
+            if datum(g.get('r')) is None or Decimal(g['r']) != exact(*k) or Decimal(g['r']).is_signed() != k[0]:
+                ctx.violation('reading the Display text back gives %s, not a number equal to %s' % (str(g.get('r'))[:60], dec_text(*k)), case, impl=g)
+            else:
+                ctx.corr_broken('datum read back vs reread', case, g.get('r'), list(map(str, reread(*k))))
+    hist['readback'] = len(live)
+    # (b) the Coq model of the reader on the same texts (long numerals are slow in Coq: a few of them only)
+    short = [(k, p) for k, p in live if len(p) <= 90]
+    r.shuffle(short)
+    pick = short[:ctx.pick(1200, 12000)]
+    pick += [((s, c, e), None) for s, c, e in [(False, 1, 40), (True, 12, 33), (False, 10 ** 34 - 1, 300), (True, 5, 1999)] + ([(False, 7, 6111)] if not ctx.quick else [])]
+    want = ctx.run_impl('num', [{'op': 'from_string', 'a': dec_text(*k)} for k, p in pick if p is None])
+    it = iter(want)
+    pick = [(k, p if p is not None else next(it)['r']['p']) for k, p in pick]
+    g2 = ctx.run_impl('num', [{'op': 'sci', 'a': p} for _, p in pick])
+    m2 = ctx.run_model(HEADER_RB, ['read_back_sci %s' % dec_coq(*k) for k, _ in pick], shard_size=max(20, len(pick) // 16 + 1), tag='rb')
+    for (k, p), g, m in zip(pick, g2, m2):
+        ctx.corr_checked += 1
+        mt = m.args[0] if getattr(m, 'args', None) else None
+        if g.get('r') != mt:
+            ctx.corr_broken('from_str(Display) vs read_back', {'operand': dec_text(*k)}, g.get('r'), mt)
+    # (c) plain numerals that need rounding (35..60 digits, non-zero tail; ties; all nines) and small ones: the reader model itself
+    texts = ['1' + '0' * 33 + '5', '1' + '0' * 33 + '15', '2' + '0' * 33 + '5', '9' * 35, '9' * 34 + '.5', '0.' + '0' * 10 + '9' * 35, '-' + '1' * 34 + '.5000', '-0', '0.000', '-0.0',
+             '12345678901234567890123456789012345', '0.' + '0' * 6170 + '123456789', '0.' + '0' * 6176 + '5', '0.' + '0' * 6176 + '51']
+    for _ in range(ctx.pick(250, 4000)):
+        L = r.randint(1, 60)
+        digs = ''.join(r.choice('0123456789') for _ in range(L))
+        if r.random() < 0.3 and L > 34:
+            digs = digs[:34] + r.choice(['5', '50', '500', '49', '51', '05']) + digs[36:][:r.randint(0, 6)]
+        cut = r.randint(0, len(digs))
+        ip, fp = digs[:cut] or '0', digs[cut:]
+        if r.random() < 0.2:
+            fp = '0' * r.randint(1, 40) + fp
+        texts.append(('-' if r.random() < 0.5 else '') + ip + ('.' + fp if fp else ''))
+    g3 = ctx.run_impl('num', [{'op': 'sci', 'a': t} for t in texts])
+    m3 = ctx.run_model(HEADER_RB, ['from_plain_sci "%s"' % t for t in texts], shard_size=max(20, len(texts) // 16 + 1), tag='fp')
+    for t, g, m in zip(texts, g3, m3):
+        ctx.corr_checked += 1
+        ctx.evaluations += 1
+        mt = m.args[0] if getattr(m, 'args', None) else None
+        it_ = g.get('r')
+        if it_ in ('Infinity', '-Infinity'):
+            it_ = None
+        if it_ != mt:
+            ctx.corr_broken('decQuadFromString vs from_plain', {'numeral': t[:100]}, g.get('r'), mt)
+    hist['reader_numerals'] = len(texts)
+    # (d) a numeral beyond the format is refused by from_str (Err), not turned into a non-finite number
+    big = ctx.run_impl('num', [{'op': 'parse', 'a': '1' + '0' * 6145}, {'op': 'sci', 'a': '1' + '0' * 6145}, {'op': 'parse', 'a': '9' * 34 + '5' + '0' * 6110}])
+    if big[0].get('err') != 'parse' or big[1].get('r') != 'Infinity' or big[2].get('err') != 'parse':
+        ctx.violation('a plain numeral beyond the decimal128 range is not refused by from_str: %s' % json.dumps(big)[:200], {'op': 'parse', 'a': '1e6145 written out'}, impl=big)
+
+
 def literal_cases(ctx):
     """FEEL numeric literals of up to 34 significant digits, with their exact value."""
     r = ctx.rng
@@ -140,6 +226,7 @@ def run(ctx):
     impl = ctx.run_impl('num', reqs)
     model = ctx.run_model(HEADER, [MODEL_TERM % (dec_coq(*k), dec_coq(*k)) for k in cases], shard_size=max(50, len(cases) // 16 + 1))
     hist = {}
+    printed = [(impl[2 * i].get('r') or {}).get('p') if isinstance(impl[2 * i].get('r'), dict) else None for i in range(len(cases))]
     for i, k in enumerate(cases):
         s, c, e = k
         got, sci = impl[2 * i], impl[2 * i + 1]
@@ -172,6 +259,8 @@ def run(ctx):
             ctx.corr_broken('Display/jsonify vs print', case, [g['p'][:100], g['j'][:100]], (m_print or 'None')[:100])
         elif len(ctx.samples) < 4 and branch in ('E-', 'E+') and s and len(g['p']) < 60:
             ctx.sample({'operand': case['operand'], 'scientific': m_sci, 'printed': g['p']})
+    # ---------------------------------------------------------------- 1b. the reader: from_str on the printed text
+    read_back_section(ctx, cases, printed, hist)
     # ---------------------------------------------------------------- 2. results of arithmetic print as plain text of their value
     ops = ['add', 'sub', 'mul', 'div', 'neg', 'abs', 'round', 'floor', 'ceiling', 'sqrt', 'rem']
     areqs = []
@@ -243,12 +332,14 @@ def run(ctx):
         rule='finite decimal128 data (sign x coefficient shapes of 1..34 digits with and without trailing zeros, zero x exponents: %s) built with '
              'FeelNumber::from_string; Display, jsonify, Debug, decQuadToString text and from_str read-back compared with the model and checked '
              'against the exact value; plus results of random arithmetic, FEEL literals of up to 34 significant digits (also under string(-x)) and '
-             'xsd input conversion.  non-trivial = distinct (sign, length class, trailing zero, zero, notation branch)' % (
+             'xsd input conversion.  Read-back: the raw datum decQuadFromString builds from every printed text is compared with `reread` (C07_read_back_datum), '
+             'with the Coq reader model read_back on texts up to 90 characters plus long ones (41..2000 digits), and from_plain with the code on plain numerals of 1..60 digits '
+             'that need rounding (ties, all nines, subnormal); a numeral beyond the range is refused.  non-trivial = distinct (sign, length class, trailing zero, zero, notation branch)' % (
                  'boundary bands and random' if ctx.quick else 'every exponent -6176..6111'),
         extra_cov={'exhaustive': False, 'branch_histogram': hist, 'grid_cases': len(cases)},
         assumptions=['decQuadFromString builds exactly the datum written in the operand text (checked through the independent Debug text and read-back)',
                      'exactness is judged with CPython decimal comparisons (exact, context-free)'],
-        trusted=['decNumber C library (decQuadToString / decQuadFromString): modelled by to_sci, sampled']
+        trusted=['decNumber C library (decQuadToString / decQuadFromString): modelled by to_sci and from_plain (= denotes, then round34), sampled']
     )
 
 
@@ -290,8 +381,10 @@ def replay(ctx, path):
 MANIFEST = dict(
     technique='Coq proof (case analysis over the notation branches, for every sign, coefficient and exponent) with model/code correspondence',
     text='Theorems (coq/Props/C07.v, closed under the global context) hold for every sign, every coefficient and every exponent: the printed text is '
-         'produced without trap, is a JSON number without exponent, and denotes exactly the value; literal exactness; the behaviour of the original '
+         'produced without trap, is a JSON number without exponent, and denotes exactly the value; literal exactness; READ-BACK (C07_read_back): for every decimal128 datum the printed text, read by the model '
+         'of from_str (all digits as coefficient, one rounding to 34 digits), gives a datum of the same sign and exactly the same value — unchanged when the exponent is not positive, '
+         'and for longer texts (positive exponent, up to 6145 digits) only appended zeros are dropped (C07_read_back_short / _long / _datum); the behaviour of the original '
          'function is refuted on two classes. The model (decQuadToString as to-scientific-string + a transliteration of scientific_to_plain) is tied '
-         'to the code by comparing Display, jsonify and the raw scientific text on a grid of signs, coefficient shapes and exponents, and the laws '
+         'to the code by comparing Display, jsonify, the raw scientific text and the datum read back from the printed text on a grid of signs, coefficient shapes and exponents, and the laws '
          'are evaluated on the implementation output for grid values, arithmetic results, FEEL literals and xsd input.',
     note='Trusted: Coq kernel + vm_compute, hand-written model (correspondence-checked), decNumber string conversion (sampled, not verified), CPython decimal for exact comparison, harness.')
